@@ -771,6 +771,13 @@ func (p *Parser) advance() {
 	verifOnAdvance(p)
 	if p.currentPos < len(p.tokens) {
 		p.currentToken = p.tokens[p.currentPos]
+	} else if p.currentPos > len(p.tokens) {
+		// A token stream without a final EOF token: stepping off its end once
+		// leaves the last token current (callers have always seen that), but
+		// a second step means some loop is consuming that stale token again
+		// and again. From here on the parser is at the end of the input, so
+		// every "until X or EOF" loop terminates instead of spinning forever.
+		p.currentToken = token.Token{Type: models.TokenTypeEOF}
 	}
 }
 
